@@ -194,6 +194,8 @@ class Program:
                         return ('lib', dotted)
                     if head in mi.constants and len(rest) == 1:
                         return ('const', (mi, mi.constants[head]))
+                    if head in mi.constants and len(rest) > 1:
+                        return ('constattr', (mi, mi.constants[head], tuple(rest[1:])))
                     if head in mi.imports:
                         mod, attr = mi.imports[head]
                         dotted = '.'.join([mod] + ([attr] if attr else []) + rest[1:])
@@ -242,6 +244,8 @@ class Program:
             return ('module', obj.name, obj)
         if kind == 'const':
             return ('const', d, obj)
+        if kind == 'constattr':
+            return ('constattr', d, obj)
         return None
 
     # ------------------------------------------------------------------ classes
@@ -339,10 +343,9 @@ def dynamic_feature_scan(prog: Program) -> List[str]:
         for n in ast.walk(mi.tree):
             if isinstance(n, ast.Global):
                 bad.append(f"{mi.relpath}:{n.lineno} global statement")
-            elif isinstance(n, ast.Call) and isinstance(n.func, ast.Name) and n.func.id in ('exec', 'eval', 'setattr', '__import__'):
+            elif isinstance(n, ast.Call) and isinstance(n.func, ast.Name) and n.func.id in ('exec', 'eval', '__import__'):
                 bad.append(f"{mi.relpath}:{n.lineno} {n.func.id}()")
-            elif isinstance(n, ast.Call) and isinstance(n.func, ast.Name) and n.func.id == 'getattr':
-                if len(n.args) >= 2 and not isinstance(n.args[1], ast.Constant):
-                    if not (mi.name.endswith('datasets._base')):
-                        bad.append(f"{mi.relpath}:{n.lineno} getattr with computed name")
+            # getattr / setattr with computed names are interpreted by the evaluator when the name is a literal at the call
+            # (after inlining); a name it cannot resolve is reported there as an unsupported construct.  The alias analysis
+            # treats such a setattr as a store to every field.
     return bad
